@@ -187,6 +187,7 @@ re_identifier_or_star      = re.compile(rf'(?:\*|{pat_identifier})')
 re_identifier_or_star_only = re.compile(rf'^(?:\*|{pat_identifier})$')
 re_identifier_alias        = re.compile(rf'(?:\*|{pat_identifier}(?:\.{pat_identifier})*)')
 re_identifier_alias_only   = re.compile(rf'^(?:\*|{pat_identifier}(?:\.{pat_identifier})*)$')
+re_identifier_alias_spaced = re.compile(rf'(?:\*|{pat_identifier}(?:[\s\\]*\.[\s\\]*{pat_identifier})*)')  # dotted name as it may be written in source, with whitespace and line continuations around the dots
 
 # Mostly in syntax order except a few special cases:
 #   BoolOp        - multiple simultaneous locations possible for single `op`
